@@ -264,7 +264,7 @@ theorem callPart_zero_err {af n : ℕ} {g : List ℕ} (hg : g ∈ part af n 0 2)
     · subst h0
       simp only [zero_add, Finset.sum_range_one, if_true]
       have hb : binomPmf 0 (g.count 1) 0 = 1 := by rw [binomPmf_zero_p _ _ (Nat.zero_le _)]; simp
-      have hb2 : binomPmf 0 0 (1 / 2) = 1 := by simp [binomPmf, choose]
+      have hb2 : binomPmf 0 0 (1 / 2) = 1 := by simp [binomPmf, choose_eq]
       have hA : Gen.LowPass.afsAfterError ((af : ℕ) : ℤ) ((0 : ℕ) : ℤ) ((0 : ℕ) : ℤ) = ((af : ℕ) : ℤ) := by
         unfold Gen.LowPass.afsAfterError; simp
       rw [hA, hb, hb2]
